@@ -15,6 +15,7 @@ import Goat.Driver.Print
 import Goat.Driver.Reload
 import Goat.Driver.Incr
 import Goat.Driver.Host
+import Goat.Driver.Backtrace
 /-! goatmodel: one operation per input line, one canonical output line per operation. -/
 open Goat.Driver
 
@@ -34,6 +35,7 @@ def step (st : DriverState) (line : String) : DriverState × String :=
   | "tsort" :: args => (st, tsortCmd args)
   | "opt" :: args => (st, optCmd args)
   | "str" :: args => (st, strCmd args)
+  | "bt" :: args => (st, btCmd args)
   | "host" :: args => (st, hostCmd false args)
   | "hostfunc" :: args => (st, hostCmd true args)
   | "incr" :: args => (st, incrCmd args)
